@@ -155,14 +155,7 @@ theorem updatePointersP_spec (c : ObjId) : ∀ (t : PHS) (st res : St) (g : HS),
         split at h
         · rename_i hc
           cases h
-          have hin : s ∈ (st.cellOf c).surfs := by
-            unfold memS at hc
-            rw [List.any_eq_true] at hc
-            obtain ⟨x, hx, he⟩ := hc
-            unfold surfEq at he
-            simp only [Bool.and_eq_true, beq_iff_eq] at he
-            have := eq_of_nodup_num st.snum st.surfaces hu s x hres.1 (hm x hx) he.1
-            rw [this]; exact hx
+          have hin : s ∈ (st.cellOf c).surfs := (memS_iff _ _ _).mp hc
           refine ⟨LoadExt.refl c st, hm, by simp [HS.allCell], fun x => ?_, fun d => by simp [HS.comps]⟩
           simp only [HS.surfs, Bool.false_eq_true, if_false, List.mem_singleton]
           constructor
@@ -276,25 +269,24 @@ theorem Exact.of_eq {st st' : St} {c : ObjId} (h : Exact st c)
   obtain ⟨g, hg, ha, hs, hc⟩ := h
   exact ⟨g, by rw [e.1]; exact hg, ha, by rw [e.2.1]; exact hs, by rw [e.2.2]; exact hc⟩
 
+theorem resolveMaterial_loadExt (st : St) (c : ObjId) (n : Int) : LoadExt c st (resolveMaterial st c n).1 := by
+  unfold resolveMaterial
+  dsimp only
+  have e0 := loadExt_updCell st c (fun cs => { cs with oldMat := n })
+  split
+  · split
+    · rename_i m _
+      exact e0.trans (loadExt_updCell _ c (fun cs => { cs with mat := some m }))
+    · exact e0
+  · exact e0.trans (loadExt_updCell _ c (fun cs => { cs with mat := none }))
+
 theorem cellUpdatePointers_spec (st res : St) (c : ObjId) (pc : PCell)
     (h : cellUpdatePointers st c pc = (res, none)) (hu : UniqS st) :
     LoadExt c st res ∧ Exact res c := by
   unfold cellUpdatePointers at h
-  simp only at h
-  -- the state after the material look-up
-  generalize hr : (if pc.mat > 0 then
-      match firstWith (st.updCell c (fun cs => { cs with oldMat := pc.mat })).mnum pc.mat
-          (st.updCell c (fun cs => { cs with oldMat := pc.mat })).materials with
-      | some m => ((st.updCell c (fun cs => { cs with oldMat := pc.mat })).updCell c (fun cs => { cs with mat := some m }), none)
-      | none => (st.updCell c (fun cs => { cs with oldMat := pc.mat }), some Err.brokenLink)
-    else ((st.updCell c (fun cs => { cs with oldMat := pc.mat })).updCell c (fun cs => { cs with mat := none }), none) : Res) = r at h
+  have he1 := resolveMaterial_loadExt st c pc.mat
+  generalize resolveMaterial st c pc.mat = r at h he1
   obtain ⟨st1, e⟩ := r
-  have he1 : LoadExt c st st1 := by
-    split at hr
-    · split at hr
-      · cases hr; exact (loadExt_updCell st c _).trans (loadExt_updCell _ c _)
-      · cases hr; exact loadExt_updCell st c _
-    · cases hr; exact (loadExt_updCell st c _).trans (loadExt_updCell _ c _)
   cases e with
   | some err => cases h
   | none =>
